@@ -67,12 +67,12 @@ def cases(rng, tier):
         vecs = list(itertools.product(vals, repeat=len(dets)))
         for n in range(1, maxc + 1):
             seqs = list(itertools.product(vecs, repeat=n))
-            cap = 150 if tier == "quick" else 3000
+            cap = 100 if tier == "quick" else 3000
             if len(seqs) > cap:
                 seqs = rng.sample(seqs, cap)
             for ws in seqs:
                 out.append(cadence_case(dets, ws))
-    nr = 150 if tier == "quick" else 3000
+    nr = 100 if tier == "quick" else 3000
     for _ in range(nr):      # longer random cadences, non-monotone indices included
         dets = rng.choice([[5], [6], [5, 6], [6, 7], [5, 6, 7]])
         cur = [0] * len(dets)
@@ -87,7 +87,7 @@ def cases(rng, tier):
             triples = [[o, 5, [["sres", o, SKEY[o]], ["sdatum", 100 + o, o, False, True, 0, wi]]] for o, wi in zip(dets, ws)]
             ops = [["open_run"], ["declare", dets, 7, True], ["collect", triples, 7, False], ["close_run", None, 0]]
             out.append(bc.mk(DEVS45, ops, tag="widths"))
-    n = 200 if tier == "quick" else 5000
+    n = 150 if tier == "quick" else 5000
     out += bc.random_cases(rng, n, "collect")
     out += bc.random_cases(rng, n // 2, "collect", wild=0.3, tag="malformed")
     return out
